@@ -309,11 +309,27 @@ func runBatch(t *testing.T, rc *RunCtx, prop string) {
 			shared := ch.Pick(2, 0) == 1 // the whole committee attests at one (slot, committee index), roots differ
 			forks := ch.Pick(3, 0) == 2
 			sl, ci := ch.U64(), ch.U64()
+			// A third of the batches: entries agree in everything but their source and target epochs (slot, committee,
+			// head and both checkpoint roots are the same) - validators with different histories asked about one fork
+			// choice.  What is signed for an entry is the data of that entry.
+			sameRoots := ch.Pick(3, 0) == 2
+			var first *Entry
 			for _, k := range keys {
 				uniq++
 				e := attFor(rc, k, model.W[k], uniq)
 				if shared {
 					e.Slot, e.CIdx = sl, ci
+				}
+				if sameRoots {
+					if first == nil {
+						f := e
+						first = &f
+					} else {
+						e.Slot, e.CIdx, e.Block, e.SRoot, e.TRoot = first.Slot, first.CIdx, first.Block, first.SRoot, first.TRoot
+						if e.Src == first.Src && e.Tgt == first.Tgt && e.Tgt < 1<<62 {
+							e.Tgt += uint64(1 + len(o.Entries)%3) // never the same epochs as the entry they are compared with
+						}
+					}
 				}
 				if forks {
 					// validators either side of a fork in one batch: same domain type, different fork data
